@@ -82,7 +82,10 @@ Compile(P) == CompileSeq(P.items, 1, [code |-> << >>, labels |-> << >>, procs |-
 HltIns == [cls |-> "ctl", op |-> "hlt"]
 
 \* a data-label operand denotes the offset the data section gives its label (C12)
-ResolveOpnd(dl, o) == IF o.k = "label" THEN [o EXCEPT !.off = dl[o.name]] ELSE o
+ResolveOpnd(dl, o) ==
+  IF o.k = "label" THEN [o EXCEPT !.off = dl[o.name]]
+  ELSE IF o.k = "offset" THEN [k |-> "imm", v |-> dl[o.name]]   \* OFFSET name: a constant
+  ELSE o
 ResolveOperands(dl, a) ==
   LET f1 == IF "dst" \in DOMAIN a THEN [a EXCEPT !.dst = ResolveOpnd(dl, a.dst)] ELSE a
       f2 == IF "src" \in DOMAIN f1 THEN [f1 EXCEPT !.src = ResolveOpnd(dl, f1.src)] ELSE f1
@@ -114,21 +117,33 @@ ItemBytes(it) ==
             [] it.form = "fill" -> [k \in 1 .. 2 * n |-> IF k % 2 = 1 THEN Lo(v % 65536) ELSE Hi(v % 65536)]
             [] it.form = "str"  -> [k \in 1 .. 2 * Len(it.bytes) |-> IF k % 2 = 1 THEN it.bytes[(k + 1) \div 2] ELSE 0]
 
-\* acc = [seg, ctr, mem (address -> byte, nonzero or overwritten), labels (name -> offset), over (BOOLEAN)]
+\* acc = [seg, ctr, mem (address -> byte, only non-zero bytes), labels (name -> offset), over (BOOLEAN)]
+\* A definition of n bytes starting at physical address base covers the addresses a with
+\* (a - base) mod 2^20 < n; later definitions overwrite earlier ones.
+Covered(a, base, n) == (a - base) % MB < n
+ItemLen(it) ==
+  LET n == IF "n" \in DOMAIN it THEN it.n ELSE 0
+      e == IF it.dir = "db" THEN 1 ELSE 2
+  IN CASE it.form = "num" -> e [] it.form \in {"zero", "fill"} -> n * e [] it.form = "str" -> e * Len(it.bytes)
+IsZeroItem(it) == it.form = "zero" \/ (it.form = "fill" /\ it.v % 65536 = 0) \/ (it.form = "num" /\ it.v % 65536 = 0)
+
 RECURSIVE LoadSeq(_, _, _)
 LoadSeq(data, k, acc) ==
   IF k > Len(data) THEN acc
   ELSE LET it == data[k] IN
     IF it.k = "set" THEN LoadSeq(data, k + 1, [acc EXCEPT !.seg = it.v, !.ctr = 0])
-    ELSE LET bs == ItemBytes(it)
-             base == acc.seg * 16 + acc.ctr
-             w == [j \in {(base + i - 1) % MB : i \in 1 .. Len(bs)} |->
-                     bs[CHOOSE i \in 1 .. Len(bs) : (base + i - 1) % MB = j /\
-                          \A i2 \in 1 .. Len(bs) : (base + i2 - 1) % MB = j => i2 <= i]]
+    ELSE LET len == ItemLen(it)
+             base == (acc.seg * 16 + acc.ctr) % MB
+             kept == [a \in {x \in DOMAIN acc.mem : ~Covered(x, base, len)} |-> acc.mem[a]]
+             w == IF IsZeroItem(it) THEN << >>
+                  ELSE LET bs == ItemBytes(it)
+                           nz == {i \in 1 .. Len(bs) : bs[i] # 0}
+                       IN [j \in {(base + i - 1) % MB : i \in nz} |->
+                             bs[CHOOSE i \in nz : (base + i - 1) % MB = j /\ \A i2 \in nz : (base + i2 - 1) % MB = j => i2 <= i]]
              lbls == IF it.label # "" THEN (it.label :> acc.ctr) @@ acc.labels ELSE acc.labels
          IN LoadSeq(data, k + 1,
-              [acc EXCEPT !.mem = w @@ @, !.ctr = @ + Len(bs), !.labels = lbls,
-                          !.over = @ \/ acc.ctr + Len(bs) > 65536])
+              [acc EXCEPT !.mem = w @@ kept, !.ctr = @ + len, !.labels = lbls,
+                          !.over = @ \/ acc.ctr + len > 65536])
 
 Load(P) == LoadSeq(P.data, 1, [seg |-> 0, ctr |-> 0, mem |-> << >>, labels |-> << >>, over |-> FALSE])
 
@@ -283,7 +298,7 @@ PromptCmd(d, c) ==
          [] c.cls = "garbage" -> Emit(d1, "prompt", MsgInvalidInput \o <<NL>>)
 
 Boot(P, C, image) ==
-  [m |-> BootMachine(image), idx |-> C.labels["start"], phase |-> "fetch", out |-> << >>,
+  [m |-> BootMachine(image), idx |-> (IF "start" \in DOMAIN C.labels THEN C.labels["start"] ELSE 0), phase |-> "fetch", out |-> << >>,
    stdin |-> P.stdin, rep |-> FALSE, after |-> "invoke", why |-> "", outfree |-> FALSE,
    svc |-> <<0, 0>>, charout |-> FALSE, freemem |-> {}, prompted |-> FALSE]
 
